@@ -1,5 +1,5 @@
 #!/venv/bin/python
-"""rerun_seeds.py [--jobs N] [--only PREFIX] [--tier quick] : regression of the detection matrix.
+"""rerun_seeds.py [--jobs N] [--only PREFIX] [--from NAME] [--tier quick] : regression of the detection matrix.
 
 For every kept seeded change /verif/seeded/<name>/ (patch.diff against /repo HEAD): scratch worktree of /repo HEAD under
 /tmp, apply the patch, run the check of its property against the mutated tree (VERIF_REPO=<worktree>), record exit code
@@ -16,13 +16,14 @@ import time
 args = sys.argv[1:]
 jobs = args[args.index('--jobs') + 1] if '--jobs' in args else '8'
 only = args[args.index('--only') + 1] if '--only' in args else ''
+start = args[args.index('--from') + 1] if '--from' in args else ''
 tier = args[args.index('--tier') + 1] if '--tier' in args else 'quick'
 root = '/verif/seeded'
 env = dict(os.environ, OMP_NUM_THREADS='1', OPENBLAS_NUM_THREADS='1')
 summary = []
 for name in sorted(os.listdir(root)):
     d = os.path.join(root, name)
-    if not name.startswith(only) or not os.path.exists(os.path.join(d, 'patch.diff')):
+    if name < start or not name.startswith(only) or not os.path.exists(os.path.join(d, 'patch.diff')):
         continue
     meta = json.load(open(os.path.join(d, 'meta.json')))
     pid = meta['property']
